@@ -8,7 +8,7 @@ from .eio_server import ServerHarness
 
 class Link:
     def __init__(self, aio=False, serializer='default', framing='binary',
-                 server_kwargs=None, client_kwargs=None):
+                 server_kwargs=None, client_kwargs=None, batch=False):
         core.bootstrap()
         self.aio = aio
         self.loop = DetLoop() if aio else None
@@ -29,6 +29,10 @@ class Link:
         self.frames_c2s = 0
         self.frames_s2c = 0
         self.pumping = False
+        # batch: the packets that are in flight are handed to the receiver
+        # back to back (one polling payload / frames already buffered) and
+        # its background tasks only run afterwards
+        self.batch = batch
         self.q_c2s = []     # frames in flight, in order
         self.q_s2c = []
 
@@ -89,7 +93,9 @@ class Link:
                     moved = True
                     self.frames_c2s += 1
                     self.sh.do(s.receive(p))
-                    self.sh.settle()
+                    if not self.batch:
+                        self.sh.settle()
+                self.sh.settle()
                 if self.aio:
                     self.loop.run_until_idle()
                     self.sh.settle()
@@ -105,9 +111,14 @@ class Link:
                     p = self.q_s2c.pop(0)
                     moved = True
                     self.frames_s2c += 1
+                    if self.batch and self.aio:
+                        self.loop.spawn(self.ch.eio._receive_packet(p))
+                        continue
                     self.ch.do(self.ch.eio._receive_packet(p))
                     if self.aio:
                         self.loop.run_until_idle()
+                if self.aio:
+                    self.loop.run_until_idle()
                 if not moved and not self.ch.outbox:
                     return
             raise core.HarnessError('link never becomes quiet')
